@@ -1,6 +1,7 @@
 import GdcVerif.Lemmas.RleTotal
 import GdcVerif.Lemmas.ParsersTotal
 import GdcVerif.Lemmas.J2kTotal
+import GdcVerif.Lemmas.JlsRunBound
 /-!
   C08 — no decoder panics: every byte string yields a result or an error.
 
@@ -139,3 +140,27 @@ example : (parse [0xff, 0x4f, 0xff, 0x51, 0x00, 0x29, 0, 0, 0, 0, 0, 1, 0, 0, 0,
   rw [parse_eval 8 rfl rfl] <;> rfl
 
 end J2kH
+
+namespace JpegLsRun
+
+/-- (10) FULL, JPEG-LS scan level: the run length `RunModeScanner.DecodeRunLength` returns is within
+    0..remainingInLine and the run index stays inside the J table (no `J[RunIndex]` panic), for every
+    bit sequence — over wp-jpegls's model `Model/JpegLsRun.lean`, which their `jls-runseg-dec`
+    correspondence lines tie to both decoders' copies of the function.  This bound is what keeps the
+    `runLength`·components sample writes of decodeSampleRunMode / doRunMode inside the pixel buffer. -/
+theorem jls_run_length_bound (bs : List Bool) (idx remaining : Int) (h0 : 0 ≤ idx) (h31 : idx ≤ 31)
+    (hrem : 0 ≤ remaining) :
+    decodeRunLength bs idx remaining ≠ .error .panic ∧
+    ∀ rl i rest, decodeRunLength bs idx remaining = .ok (rl, i, rest) → 0 ≤ rl ∧ rl ≤ remaining ∧ 0 ≤ i ∧ i ≤ 31 :=
+  decodeRunLength_bound bs idx remaining h0 h31 hrem
+
+/-- the scan `FF 30` on a 13-sample line: eight 1-bits make the run 12 and RUNindex 8 (J = 2), the
+    two remainder bits `11` would make it 15 > 13: an error, not an overshoot -/
+example : decodeRunLength [true, true, true, true, true, true, true, true, false, true, true, false, false, false, false] 0 13
+    = .error .err := by rfl
+
+/-- non-vacuity: the same bits on a 16-sample line give run length 15 -/
+example : decodeRunLength [true, true, true, true, true, true, true, true, false, true, true] 0 16
+    = .ok (15, 8, []) := by rfl
+
+end JpegLsRun
